@@ -81,7 +81,7 @@ fn variant_bin(v: &Variant) -> PathBuf {
 }
 
 /// Ok(path) or Err((is_compile_error, message))
-fn build_variant(v: &Variant) -> Result<PathBuf, (bool, String)> {
+pub fn build_variant(v: &Variant) -> Result<PathBuf, (bool, String)> {
     let mut flags = v.rustflags.to_string();
     if v.hooks {
         flags.push_str(" --cfg httparse_verif");
@@ -127,7 +127,7 @@ fn run_digest(bin: &PathBuf, corpus: &str, cell: Option<u8>, race: bool) -> Resu
     Ok(out.stdout.chunks_exact(8).map(|c| u64::from_le_bytes(c.try_into().unwrap())).collect())
 }
 
-fn write_corpus(path: &str, cases: &[CaseRec]) {
+pub fn write_corpus(path: &str, cases: &[CaseRec]) {
     let mut data = Vec::new();
     for c in cases {
         data.push(c.entry as u8);
